@@ -63,6 +63,34 @@ instance (g : G) (hashE : G × G × G × G → ZMod n) (e s r : ZMod n) (A Y C :
     Decidable (proofDleqVerify g hashE e s r A Y C) := by
   unfold proofDleqVerify; infer_instance
 
+/-- What `nut12.VerifyProofsDLEQ` reads of a `cashu.Proof`: the amount (to look up the key), `Y = HashToCurve(secret)`,
+the parsed `C`, and the optional DLEQ `(e, s, r)` whose `r` may itself be absent (`R == ""`). -/
+structure DProof (Amount : Type*) (G : Type*) (n : ℕ) where
+  amount : Amount
+  Y : G
+  C : G
+  dleq : Option (ZMod n × ZMod n × Option (ZMod n))
+
+/-- One iteration of the loop of `nut12.VerifyProofsDLEQ`: no DLEQ ⇒ `continue`; amount not in the keyset ⇒ `false`;
+`r == nil` ⇒ `false` (inside `VerifyProofDLEQ`); otherwise `VerifyProofDLEQ`. -/
+def proofDleqOk {Amount : Type*} (g : G) (hashE : G × G × G × G → ZMod n) (pub : Amount → Option G)
+    (p : DProof Amount G n) : Prop :=
+  match p.dleq with
+  | none => True
+  | some (e, s, r?) =>
+    match pub p.amount with
+    | none => False
+    | some A =>
+      match r? with
+      | none => False
+      | some r => proofDleqVerify g hashE e s r A p.Y p.C
+
+/-- `nut12.VerifyProofsDLEQ`: `false` at the first failing proof, `true` at the end. -/
+def proofsDleqVerify {Amount : Type*} (g : G) (hashE : G × G × G × G → ZMod n) (pub : Amount → Option G) :
+    List (DProof Amount G n) → Prop
+  | [] => True
+  | p :: ps => proofDleqOk g hashE pub p ∧ proofsDleqVerify g hashE pub ps
+
 /-- `(e, s)` opens the commitment `(R1, R2)` for the statement `(A, B', C')`: the two equations `VerifyDLEQ`
 recomputes, without the hash. -/
 def dleqOpens (g : G) (R1 R2 : G) (e s : ZMod n) (A B' C' : G) : Prop :=
